@@ -258,7 +258,7 @@ def results():
         items = [(k, v[0], v[1]) for k, v in CORPUS.items()]
         sketch.transpile(HEAD + "while True:\n    z0 = 0\n")      # warm the module caches before forking
         try:
-            with cf.ProcessPoolExecutor(max_workers=min(8, os.cpu_count() or 2), mp_context=multiprocessing.get_context("fork")) as ex:
+            with cf.ProcessPoolExecutor(max_workers=__import__('sa.core', fromlist=['workers']).workers(8), mp_context=multiprocessing.get_context("fork")) as ex:
                 out = list(ex.map(_task, items))
         except (OSError, ValueError, cf.process.BrokenProcessPool):
             out = [_task(i_) for i_ in items]
